@@ -4,7 +4,7 @@
    `sync s` (no continuation byte directly after an ASCII byte) holds of every valid UTF-8
    text, i.e. of every Rust `&str`; the external url / cid / semver parsers are universally
    quantified functions. *)
-From SwayV Require Import Base.Util C21.Str C21.Model C21.Orig C21.Spec C21.Proofs.
+From SwayV Require Import Base.Util C21.Str C21.Model C21.Orig C21.Spec C21.Proofs C21.Utf8 C21.Utf8Total.
 
 (* Parsing any source string yields a pinned source or an error, never a panic. *)
 Theorem C21_parse_pinned_total :
@@ -29,6 +29,32 @@ Theorem C21_to_graph_total :
     value_or_error (to_graph parse_url parse_cid parse_ver pkgs).
 Proof. exact to_graph_total. Qed.
 Print Assumptions C21_to_graph_total.
+
+(* Every Rust `&str` is the UTF-8 encoding of a sequence of Unicode scalar values (`is_utf8`,
+   C21/Utf8.v, char::encode_utf8); such byte strings satisfy `sync`. *)
+Theorem C21_utf8_sync : forall s : str, is_utf8 s -> sync s = true.
+Proof. exact utf8_sync. Qed.
+Print Assumptions C21_utf8_sync.
+
+(* Hence the three statements hold for every `&str`, with no side hypothesis. *)
+Theorem C21_parse_pinned_total_utf8 :
+  forall (url cid ver : Type) (parse_url : str -> option url) (parse_cid : str -> option cid)
+         (parse_ver : str -> option ver) (s : str),
+    is_utf8 s -> value_or_error (parse_pinned url cid ver parse_url parse_cid parse_ver s).
+Proof. exact parse_pinned_total_utf8. Qed.
+Print Assumptions C21_parse_pinned_total_utf8.
+
+Theorem C21_parse_dep_line_total_utf8 :
+  forall line : str, is_utf8 line -> value_or_error (parse_dep_line line).
+Proof. exact parse_dep_line_total_utf8. Qed.
+Print Assumptions C21_parse_dep_line_total_utf8.
+
+Theorem C21_to_graph_total_utf8 :
+  forall (url cid ver : Type) (parse_url : str -> option url) (parse_cid : str -> option cid)
+         (parse_ver : str -> option ver) (pkgs : list pkglock),
+    Forall utf8_pkg pkgs -> value_or_error (to_graph parse_url parse_cid parse_ver pkgs).
+Proof. exact to_graph_total_utf8. Qed.
+Print Assumptions C21_to_graph_total_utf8.
 
 (* The result depends on the external parsers only through the calls listed by `queries`
    (this is what lets the correspondence run instantiate them by a finite measured table). *)
@@ -96,3 +122,6 @@ Example C21_example_lock_ok :
       {| pl_name := [98]%N; pl_source := s_member; pl_deps := []; pl_cdeps := [] |} ] = Ok g
   /\ length (g_nodes g) = 2 /\ length (g_edges g) = 1.
 Proof. eexists. vm_compute. repeat split; reflexivity. Qed.
+(* Non-vacuity of is_utf8: "x (é" (scalars 120 32 40 233) is the byte string 120 32 40 195 169. *)
+Example C21_example_is_utf8 : is_utf8 [120;32;40;195;169]%N.
+Proof. exists [120;32;40;233]%N. split; [repeat constructor|vm_compute; reflexivity]. Qed.
